@@ -139,7 +139,9 @@ func (p *Parser) ParseFile(filename string, varPool *VarPool) (*MetaData, []*Bui
 	}
 
 	for _, f := range pkg.Syntax {
-		if f == nil {
+		// Imports of previously generated files must not take part in the allocation of
+		// import names either, or the aliases would depend on leftovers of earlier runs.
+		if f == nil || isKessokuGeneratedFile(f) {
 			continue
 		}
 
